@@ -175,7 +175,8 @@ def _add_rebuilds(rep, path, h, state, what, case, salt):
     from eos import SourceManager, __version__
     SourceManager._sources = {}
     SourceManager.default = None
-    dh = G.DataHandler('v7', salt)
+    ver = None if salt % 2 else 'v7'          # a data handler without a version must regenerate as well
+    dh = G.DataHandler(ver, salt)
     try:
         SourceManager.add('c16', dh, h)
     except Exception as e:
@@ -188,7 +189,7 @@ def _add_rebuilds(rep, path, h, state, what, case, salt):
         rep.violate('SourceManager.add did not rebuild an empty cache (%s)' % what, case)
     if dh.calls:
         fresh = G.JsonCacheHandler(path)
-        if h.get_fingerprint() != 'v7_%s' % __version__ or fresh.get_fingerprint() != 'v7_%s' % __version__:
+        if h.get_fingerprint() != '%s_%s' % (ver, __version__) or fresh.get_fingerprint() != '%s_%s' % (ver, __version__):
             rep.violate('fingerprint not current after rebuild (%s)' % what, case)
         if G.served(h) != G.served(fresh) or G.served(h)['type1']['attrs'] != [['i100', G.canon(50.0 + salt)]]:
             rep.violate('rebuilt cache does not serve the current data (%s)' % what, case)
